@@ -45,6 +45,36 @@ pub fn entry_json(e: &Entry<EntrySealed, EntryCommitted>) -> J {
     canon(serde_json::to_value(e.to_dbentry()).expect("dbentry json"))
 }
 
+/// Attribute names whose VALUES are generated secrets (keys, salts, hashes). Some of that material
+/// comes from the crypto library's own generator, which the entropy seam does not own, so it is
+/// left out of trace/state digests (presence and value count are kept). Comparisons between
+/// replicas or against a pre-state use the full values.
+pub fn is_secret_attr(name: &str) -> bool {
+    ["key", "secret", "credential", "password", "token", "cookie", "passkey", "totp", "cert", "session"].iter().any(|k| name.contains(k))
+}
+
+fn count_leaves(j: &J) -> usize {
+    match j {
+        J::Array(a) => a.iter().map(count_leaves).sum::<usize>().max(1),
+        J::Object(m) => m.values().map(count_leaves).sum::<usize>().max(1),
+        _ => 1,
+    }
+}
+
+/// `entry_json` with secret attribute values replaced by their shape, and with every change-id
+/// server uuid kept (server uuids come from the seeded stream).
+pub fn entry_json_masked(e: &Entry<EntrySealed, EntryCommitted>) -> J {
+    let mut j = entry_json(e);
+    if let Some(attrs) = j.pointer_mut("/ent/V3/attrs").and_then(|a| a.as_object_mut()) {
+        for (k, v) in attrs.iter_mut() {
+            if is_secret_attr(k) {
+                *v = J::String(format!("<secret:{}>", count_leaves(v)));
+            }
+        }
+    }
+    j
+}
+
 /// Every entry in the database (live, recycled, conflict, tombstone), keyed by uuid.
 pub fn all_entries<T: QueryServerTransaction<'static>>(_t: &mut T) {}
 
@@ -83,6 +113,23 @@ impl Dump {
     pub fn live_and_conflict(mut self) -> Dump {
         self.entries.retain(|_, (s, _)| matches!(s, EState::Live | EState::Conflict));
         self
+    }
+    /// Digest for traces: secret attribute values are reduced to their shape (see `is_secret_attr`).
+    pub fn digest_masked(&self) -> u64 {
+        let mut h = 0u64;
+        for (u, (s, j)) in &self.entries {
+            let mut j = j.clone();
+            if let Some(attrs) = j.pointer_mut("/ent/V3/attrs").and_then(|a| a.as_object_mut()) {
+                for (k, v) in attrs.iter_mut() {
+                    if is_secret_attr(k) {
+                        *v = J::String(format!("<secret:{}>", count_leaves(v)));
+                    }
+                }
+            }
+            let line = format!("{u}|{s:?}|{j}");
+            h = h.rotate_left(5) ^ fnv64(line.as_bytes());
+        }
+        h
     }
     pub fn digest(&self) -> u64 {
         let mut h = 0u64;
